@@ -264,7 +264,7 @@ def spBlock (m : SeqMod) (s1 : St) (seq pos' : Int) : Option St :=
   if patv < m.pat then
     if m.marker = true ∧ patv = 0xff then none
     else if pos' > geti m.scanOrd seq then some { s1 with endPoint := 0 }
-    else some { s1 with numRows := m.rowsOf patv, endPoint := geti m.scanNum seq, jumpline := 0 }
+    else some { s1 with endPoint := geti m.scanNum seq, jumpline := 0 }
   else some s1
 
 /-- the final `if (pos < mod->len) { p->pos = …; libxmp_reset_flow(ctx); }` of `set_position` -/
